@@ -1,10 +1,10 @@
 CONSTANTS
   Variant = "orig"
   MaxLabels = 2
-  MaxList = 2
+  MaxList = 1
   WithLong = TRUE
 INIT Init
-NEXT NoNext
+NEXT Next
 INVARIANT ImplMeetsContract
 INVARIANT PortAside
 INVARIANT NoLookAlike
